@@ -133,6 +133,30 @@ pub(crate) mod prelude {
                 self.current -= 1;
             }
         }
+
+        /// Account for `_levels` levels of nesting that are not containers of their own (the
+        /// tables a dotted key creates around its value)
+        pub(crate) fn enter_by(
+            &mut self,
+            _levels: usize,
+        ) -> Result<(), super::error::CustomError> {
+            #[cfg(not(feature = "unbounded"))]
+            {
+                self.current += _levels;
+                if LIMIT <= self.current {
+                    self.current -= _levels;
+                    return Err(super::error::CustomError::RecursionLimitExceeded);
+                }
+            }
+            Ok(())
+        }
+
+        pub(crate) fn exit_by(&mut self, _levels: usize) {
+            #[cfg(not(feature = "unbounded"))]
+            {
+                self.current -= _levels;
+            }
+        }
     }
 
     pub(crate) fn check_recursion<'b, O>(
